@@ -78,7 +78,7 @@ class PickupManager:
         """
         manager = cls(optic)
         for pickup_data in data:
-            manager.add(**pickup_data)
+            manager.pickups.append(Pickup(optic, **pickup_data))
         return manager
 
 
